@@ -299,14 +299,17 @@ the model's `fuel` error never occurs, so `inlineAll` is the total function it s
 theorem inline_total (G : Graph P) (entrySites : List (Site P)) :
     Err.fuel ∉ (inlineAll G entrySites).errors := by
   have key := inlineRequire_errs G (fun e => e ≠ .fuel) (fun n stack _ => free G stack < n)
-    (by intro q; simp) (by intro q; simp) (by intro q; simp) (by intro q; simp) (by intro q; simp) (by intro q; simp)
+    (by
+      intro n stack p _ _
+      refine ⟨?_, ?_, ?_, ?_, ?_, ?_⟩ <;> intros <;> simp)
     (by intro stack p h; omega)
     (by intro n stack p i _ _; simp)
     (by
       intro n stack p sites ret hc hidx hget s _ q _
       have := free_lt G stack p _ (indexOf?_none_not_mem p stack hidx) hget
       omega)
-  have hv := visit_errs (fun e => e ≠ .fuel) (by intro q; simp) (inlineRequire G (G.length + 1) []) true entrySites
+  have hv := visit_errs (fun e => e ≠ .fuel) (inlineRequire G (G.length + 1) []) true entrySites
+    (by intros; simp)
     (fun s _ q _ _ => key (G.length + 1) [] q (by rw [free_nil]; omega)) St.empty (by intro e he; simp [St.empty] at he)
   intro hmem
   exact hv _ hmem rfl
@@ -320,8 +323,9 @@ theorem inline_cyclic_sound (G : Graph P) (entrySites : List (Site P)) (ps : Lis
   let R := Reach G entrySites
   have key := inlineRequire_errs G (fun e => ∀ ps, e = .cyclic ps → GoodCycle G R ps)
     (fun _ stack p => IsPath G (stack ++ [p]) ∧ ∀ x ∈ stack ++ [p], R x)
-    (by intro q ps h; cases h) (by intro q ps h; cases h) (by intro q ps h; cases h) (by intro q ps h; cases h)
-    (by intro q ps h; cases h) (by intro q ps h; cases h)
+    (by
+      intro n stack p _ _
+      refine ⟨?_, ?_, ?_, ?_, ?_, ?_⟩ <;> intros <;> rename_i h <;> cases h)
     (by intro stack p _ ps h; cases h)
     (by
       intro n stack p i hc hidx ps' hps
@@ -352,8 +356,9 @@ theorem inline_cyclic_sound (G : Graph P) (entrySites : List (Site P)) (ps : Lis
       · have : x = q := by simpa using hx
         subst this
         exact Reach.step (hc.2 p (by simp)) he)
-  have hv := visit_errs (fun e => ∀ ps, e = .cyclic ps → GoodCycle G R ps) (by intro q ps h; cases h)
+  have hv := visit_errs (fun e => ∀ ps, e = .cyclic ps → GoodCycle G R ps)
     (inlineRequire G (G.length + 1) []) true entrySites
+    (by intro s _ q _ _ ps h; cases h)
     (fun s hs q hq hsh => key (G.length + 1) [] q
       ⟨trivial, by
         intro x hx
@@ -365,6 +370,64 @@ theorem inline_cyclic_sound (G : Graph P) (entrySites : List (Site P)) (ps : Lis
         · simp [hb] at hsh⟩)
     St.empty (by intro e he; simp [St.empty] at he)
   exact hv _ h ps rfl
+
+/-- the files reachable from the entry are all present, parse, and return exactly one value (or are
+data files), and every require call the walk acts on resolves to a file or is excluded -/
+structure WellFormed (G : Graph P) (entrySites : List (Site P)) : Prop where
+  entry : ∀ s ∈ entrySites, s.shadowed = false → ∀ q, s.target ≠ .notFound q
+  node : ∀ p, Reach G entrySites p →
+    G.get p = some .data ∨ ∃ sites, G.get p = some (.lua sites .one) ∧ ∀ s ∈ sites, ∀ q, s.target ≠ .notFound q
+
+/-- no cycle of requires among the files reachable from the entry -/
+def Acyclic (G : Graph P) (entrySites : List (Site P)) : Prop :=
+  ¬ ∃ ps, GoodCycle G (Reach G entrySites) ps
+
+/-- on a well-formed graph the only errors the walk can collect are cycle reports -/
+theorem inline_wellformed_errors_cyclic (G : Graph P) (entrySites : List (Site P))
+    (hwf : WellFormed G entrySites) :
+    ∀ e ∈ (inlineAll G entrySites).errors, ∃ ps, e = .cyclic ps := by
+  have key := inlineRequire_errs G (fun e => ∃ ps, e = .cyclic ps)
+    (fun n stack p => Reach G entrySites p ∧ free G stack < n)
+    (by
+      intro n stack p hc _
+      rcases hwf.node p hc.1 with hd | ⟨sites, hl, hs⟩
+      · refine ⟨?_, ?_, ?_, ?_, ?_, ?_⟩
+        · intro h; rw [hd] at h; cases h
+        · intro h; rw [hd] at h; cases h
+        · intro h; rw [hd] at h; cases h
+        · intro sites' h; rw [hd] at h; cases h
+        · intro sites' h; rw [hd] at h; cases h
+        · intro sites' ret h; rw [hd] at h; cases h
+      · refine ⟨?_, ?_, ?_, ?_, ?_, ?_⟩
+        · intro h; rw [hl] at h; cases h
+        · intro h; rw [hl] at h; cases h
+        · intro h; rw [hl] at h; cases h
+        · intro sites' h; rw [hl] at h; cases h
+        · intro sites' h; rw [hl] at h; cases h
+        · intro sites' ret h s hs' q hq
+          rw [hl] at h; cases h
+          exact absurd hq (hs s hs' q))
+    (by intro stack p h; omega)
+    (by intro n stack p i _ _; exact ⟨_, rfl⟩)
+    (by
+      intro n stack p sites ret hc hidx hget s hs q hq
+      have := free_lt G stack p _ (indexOf?_none_not_mem p stack hidx) hget
+      exact ⟨Reach.step hc.1 ⟨sites, ret, hget, s, hs, hq⟩, by omega⟩)
+  have hv := visit_errs (fun e => ∃ ps, e = .cyclic ps) (inlineRequire G (G.length + 1) []) true entrySites
+    (by
+      intro s hs q hq hsh
+      have hsf : s.shadowed = false := by
+        cases hb : s.shadowed
+        · rfl
+        · simp [hb] at hsh
+      exact absurd hq (hwf.entry s hs hsf q))
+    (fun s hs q hq hsh => key (G.length + 1) [] q
+      ⟨Reach.root ⟨s, hs, by
+        cases hb : s.shadowed
+        · rfl
+        · simp [hb] at hsh, hq⟩, by rw [free_nil]; omega⟩)
+    St.empty (by intro e he; simp [St.empty] at he)
+  exact hv
 
 /-- **One definition per file, in dependency order.** If the walk collects no error (the bundler
 succeeds) then, whatever the spellings and however often a file is required (diamonds):
@@ -423,6 +486,21 @@ theorem inline_dag (G : Graph P) (entrySites : List (Site P))
     · rw [hskip] at h; cases h
     · have := huniq j j' q hj hj'
       omega
+
+/-- **Acyclic and well-formed ⇒ the bundler succeeds** (converse of `inline_dag`): if every file
+reachable from the entry is present, parses and returns exactly one value, every acted-on require
+resolves (or is excluded), and no cycle of requires is reachable, the walk collects no error. -/
+theorem inline_wellformed_acyclic_ok (G : Graph P) (entrySites : List (Site P))
+    (hwf : WellFormed G entrySites) (hac : Acyclic G entrySites) :
+    (inlineAll G entrySites).errors = [] := by
+  cases herr : (inlineAll G entrySites).errors with
+  | nil => rfl
+  | cons e rest =>
+    exfalso
+    have hmem : e ∈ (inlineAll G entrySites).errors := by rw [herr]; exact List.mem_cons_self
+    obtain ⟨ps, hps⟩ := inline_wellformed_errors_cyclic G entrySites hwf e hmem
+    subst hps
+    exact hac ⟨ps, inline_cyclic_sound G entrySites ps hmem⟩
 
 end graph
 
